@@ -491,9 +491,10 @@ def one_case(ctx, case):
     vls = log.get("vec_lens", [])
     bad_vl = [(i, a_, b_) for i, (a_, b_) in enumerate(vls) if a_ != b_]
     ctx.count(f"fit: flat gradient vectors observed with exactly the network's parameter count: {len(vls) - len(bad_vl)} of {len(vls)} batches")
-    ctx.oracle("every vector fit hands to vector_to_grads is a 1-D double tensor with EXACTLY the total parameter count of its network "
-               "(no value is dropped by the silent truncation, none is missing)", not bad_vl, case,
-               detail={"first": [str(x) for x in bad_vl[:1]]}, sig=f"{kind}/vector-length", theorem="C06_fit_vector_length, C06_slices_exact")
+    # third audit B-1: shape / dtype of the RETURN VALUE of compute_batch_gradients is an intermediate (docstring: list[torch.Tensor]); C06
+    # constrains the .grad the optimizer sees (judged by the per-batch points below).  A rewrite that returns per-parameter tensors, (1,P) rows or
+    # float32 that fit flattens / casts keeps every .grad: recorded only, no verdict.
+    ctx.info(f"{kind}: every vector compute_batch_gradients returns is a 1-D double tensor with exactly the network's parameter count", not bad_vl, True)
 
     if log["unobserved"]:
         # fit no longer goes through the public compute_batch_gradients once per optimizer step: the per-batch model cannot be tied to the code
@@ -1068,7 +1069,11 @@ def vtg_case(ctx, case):
     import random
 
     from qucumber.rbm import BinaryRBM, PurificationRBM
-    from qucumber.utils.gradients_utils import vector_to_grads
+    try:
+        from qucumber.utils.gradients_utils import vector_to_grads
+    except ImportError:   # third audit B-13: the helper may be renamed / inlined by a rewrite (fit's .grad is judged elsewhere): nothing to call
+        ctx.count("vtg: qucumber.utils.gradients_utils.vector_to_grads not importable (direct-call probe skipped)")
+        return
 
     ctx.current_case = case
     rng = random.Random(case["seed"])
@@ -1112,7 +1117,7 @@ def vtg_case(ctx, case):
         # DIRECT calls with a malformed vector are outside C06 (fit always passes exactly-sized vectors: oracle `<kind>/vector-length`):
         # whether they are refused, and which .grad tensors a refused call has already assigned, is recorded, never a verdict
         ctx.info(f"vtg/{variant}: call refused or not", err is None, "ok" in m)
-        if variant in ("exact", "longer", "much_longer") and err is None and "ok" in m:
+        if variant == "exact" and err is None and "ok" in m:   # over-long vectors are malformed input (third audit B-13): info branch below
             ctx.point("vector_to_grads: the .grad tensors assigned when the call returns (each parameter its slice)", "aux",
                       assigned, m["assigned"], case, exact=True, sig=f"vtg/assigned/{variant}", theorem="C06_slices_exact, C06_slices_tail_ignored")
         else:
@@ -1124,9 +1129,11 @@ def vtg_case(ctx, case):
         for p_, k_ in zip(params, sizes):
             ok = ok and p_.grad is not None and tuple(p_.grad.shape) == tuple(p_.shape) and np.array_equal(p_.grad.numpy().ravel(), vals[off:off + k_])
             off += k_
-        ctx.oracle("vector_to_grads gives every parameter exactly its slice of the vector, in parameters() order" +
-                   (" (entries beyond the parameter count are ignored)" if variant != "exact" else ""), bool(ok), case, sig=f"vtg/slices/{variant}",
-                   theorem="C06_slices_exact, C06_lands_on_parameter" + (", C06_slices_tail_ignored" if variant != "exact" else ""))
+        if variant == "exact":
+            ctx.oracle("vector_to_grads gives every parameter exactly its slice of the vector, in parameters() order", bool(ok), case,
+                       sig=f"vtg/slices/{variant}", theorem="C06_slices_exact, C06_lands_on_parameter")
+        else:   # an over-long vector is malformed input (fit never passes one): what an accepting implementation does with it is recorded only
+            ctx.info(f"vtg/{variant}: every parameter gets its slice, entries beyond the parameter count are ignored", bool(ok), True)
 
 
 def gen_vtg_cases(rng, thorough):
